@@ -253,6 +253,7 @@ func oaHexVal(s string) (int, bool) {
 const (
 	fixedRequote      = true
 	fixedBacktick     = true
+	fixedRestricted   = true // repaired by the "fix: restricted productions" commit (f7f7cd3)
 	fixedUnterminated = true // repaired by the "fix: an unterminated string or backtick literal is an illegal token" commit
 )
 
@@ -431,7 +432,7 @@ func oaSourceClass(src, cfg string, tree *ast.Program) string {
 	switch {
 	case oaHasBareCR(src):
 		return clsBareCR
-	case srcRestrictedProduction(src):
+	case !fixedRestricted && srcRestrictedProduction(src):
 		return clsRestricted
 	case srcStringRequote(src):
 		return clsRequote
